@@ -174,12 +174,12 @@ PROPS['C11'] = {
 
 PROPS['C12'] = {
     'level': 'proof',
-    'verus_units': ['cuckoo', 'quotient'],
+    'verus_units': ['cuckoo', 'quotient', 'quotient_exact'],
     'kani': {'quick': CUCKOO_K[1:] + QF_QUICK[:4] + QF_UNION_QUICK, 'thorough': QF_THOROUGH + QF_UNION_THOROUGH},
     'explanation': 'Verus proofs, unbounded in table size and for every eviction outcome: Cuckoo insert Err => every slot and the counter are as before (undo log replayed backwards), union Err => table and counter restored; Quotient insert Err / Ok(false) => all four arrays and the counter unchanged (the capacity test precedes every write), union Err => all four arrays and the counter restored from the backup, whatever the partial transfer did. The other operand is a shared borrow. Kani harnesses (bounded) serve as counterexample engine and check the iterator-order rewrite.',
     'trusted_base': COMMON_TRUST + [HASH_TRUST, INTVEC_TRUST, PANIC_ASSERTS,
                                     'R2: `for (pos, data) in log.iter().rev().cloned()` rewritten to an index loop in the Verus unit; the real loop is checked against the reverse-order oracle by kani harness c12_cuckoo_restore_state_reverse_order (log <= 3)'],
-    'assumptions': ['R9: the two panic sites of the quotient filter whose reachability depends on the canonical layout are modelled as diverging (partial correctness)'],
+    'assumptions': ['unit quotient (no layout invariant): the two panic sites whose reachability depends on the canonical layout are modelled as diverging (R9); unit quotient_exact proves both unreachable from every state satisfying inv() and re-proves the Err => unchanged clauses under inv()'],
     'not_decided': [],
 }
 
